@@ -633,3 +633,119 @@ def run(rep, tier):   # noqa: F811
     rep.cov["bounds"]["history"] = "PDB files of 3 HETATM lines, 2 residues whose names need the atom-based one-letter detection; module-level mutable state compared on every path"
     rep.assume("history independence is decided through the frame condition (module-level mutable containers of rnapolis.* are unchanged by a call); "
                "state hidden in closures, functools caches or C extensions is outside it")
+
+
+# ======================================================================================================
+# extension 3: a file that is rewritten between two reads (file system = stub with the contract "readFile returns the current content")
+# ======================================================================================================
+REREAD_ATTRS = ["group_PDB", "id", "label_atom_id", "label_comp_id", "label_asym_id", "label_entity_id", "label_seq_id", "pdbx_PDB_ins_code",
+                "Cartn_x", "Cartn_y", "Cartn_z", "occupancy", "auth_seq_id", "auth_comp_id", "auth_asym_id", "pdbx_PDB_model_num"]
+
+
+def job_reread(_):
+    """the real mmCIF reader on one path name whose content changes between two reads: one atom_site row per content, chain and
+    residue number symbolic; the second read must return the second content on every path"""
+    import sys
+    sys.path.insert(0, "/verif")
+    import time
+    import z3
+    from symx.engine import Engine
+    from symx import bstr as B
+    import rnapolis.parser as PR
+    from mmcif.api.PdbxContainers import DataContainer
+    from mmcif.api.DataCategory import DataCategory
+    eng = Engine(timeout_ms=20000)
+    ns = B.instrument_module_functions(PR, ["try_parse_int", "is_cif", "parse_cif", "filter_clashing_atoms", "get_residue_name",
+                                            "get_one_letter_name", "detect_one_letter_name", "group_atoms", "read_3d_structure"], eng)
+    tables = []
+    XS = ["1.000", "9.000"]
+    for k in range(2):
+        chain = B.bvar(eng, f"chain{k}", 2, minlen=1, charset="ABab")
+        seq_n, seq = B.int_field(eng, f"seq{k}", 3, True)
+        tables.append([["ATOM", "1", "P", "G", chain, "1", seq, "?", XS[k], "2.000", "3.000", "1.00", seq, "G", chain, "1"]])
+    calls = {"n": 0}
+
+    class FakeAdapter:
+        def readFile(self, path, *a, **kw):
+            k = min(calls["n"], 1)
+            calls["n"] += 1
+            c = DataContainer("verif")
+            c.append(DataCategory("atom_site", list(REREAD_ATTRS), [list(r) for r in tables[k]]))
+            return [c]
+
+    class FakeFile:
+        name = "/fake/work/model.cif"
+
+        def seek(self, n):
+            pass
+
+        def readlines(self):
+            return ["data_x\n", "_atom_site.id\n"]
+    saved = PR.IoAdapterPy
+    PR.IoAdapterPy = FakeAdapter          # helpers outside the instrumented set see the stub as well
+    ns["IoAdapterPy"] = FakeAdapter
+    t0 = time.time()
+    try:
+        def run():
+            calls["n"] = 0
+            a = ns["read_3d_structure"](FakeFile(), None)
+            b = ns["read_3d_structure"](FakeFile(), None)
+            return [[float(x.x) for r in s.residues for x in r.atoms] for s in (a, b)]
+        paths = eng.explore(run, maxpaths=5000)
+    finally:
+        PR.IoAdapterPy = saved
+    res = {"name": "reread:cif", "paths": len(paths), "bad": None, "exception": None, "queries": eng.nq, "solver_s": round(eng.tq, 2), "wall_s": round(time.time() - t0, 1),
+           "frame_diffs": getattr(eng, "frame_diffs", []), "exhausted": eng.exhausted}
+    for path, out in paths:
+        if isinstance(out, Exception):
+            res["exception"] = f"{type(out).__name__}: {out}"
+        elif out != [[1.0], [9.0]] and res["bad"] is None:
+            res["bad"] = out
+    return res
+
+
+REPLAY_REREAD = '''
+import tempfile
+from rnapolis.parser import read_3d_structure
+ATTRS = {attrs!r}
+def text(x):
+    row = ["ATOM", "1", "P", "G", "A", "1", "7", "?", x, "2.000", "3.000", "1.00", "7", "G", "A", "1"]
+    return "data_verif\\nloop_\\n" + "".join("_atom_site." + a + "\\n" for a in ATTRS) + " ".join(row) + "\\n#\\n"
+d = tempfile.mkdtemp(); p = os.path.join(d, "model.cif")
+got = []
+for x in ("1.000", "9.000"):
+    open(p, "w").write(text(x))
+    with open(p) as f:
+        s = read_3d_structure(f, None)
+    got.append([a.x for r in s.residues for a in r.atoms])
+print("two reads of one path, rewritten in between:", got)
+sys.exit(0 if got == [[1.0], [9.0]] else 1)
+'''
+
+_run_prev2 = run
+
+
+def run(rep, tier):   # noqa: F811
+    from vlib.core import Violation
+    from vlib.par import pmap, Crashed
+    _run_prev2(rep, tier)
+    r = pmap(job_reread, [0])[0]
+    if isinstance(r, Crashed):
+        rep.harness_error(f"reread job crashed: {r.why}")
+        return
+    rep.add(states=r["paths"], transitions=max(r["queries"], 1), solver_s=r["solver_s"], obligations=1)
+    rep.sample({"group": r["name"], "paths": r["paths"], "wall_s": r["wall_s"]}, cap=14)
+    if r["exception"] or not r["paths"] or not r["exhausted"]:
+        rep.harness_error(f"reread job: {r['exception'] or 'exploration incomplete'}")
+        return
+    rep.add(discharged=1)
+    if r["bad"] is not None:
+        rep.violation(Violation("parser.read_3d_structure:reread", f"a path read twice with its content rewritten in between gives coordinates {r['bad']} instead of [[1.0], [9.0]] "
+                                "(the second read does not return the current content)", REPLAY_REREAD.format(attrs=REREAD_ATTRS), witness=r["bad"]))
+    else:
+        rep.add(reachability_witnesses=1)
+    if r["frame_diffs"]:
+        rep.cov.setdefault("frame_diffs", []).append({"where": r["name"], "diff": r["frame_diffs"][0]})
+    rep.cov["functions_encoded"].append("parser.read_3d_structure / parse_cif (one path name, two contents)")
+    rep.cov["stubs"].append("IoAdapterPy.readFile(name) -> the content currently stored under that name (changes between the two reads)")
+    rep.cov["bounds"]["reread"] = "mmCIF file of one atom_site row, chain (1-2 chars) and residue number (-999..999) symbolic in both contents"
